@@ -42,6 +42,12 @@ def check_fixed_point(ctx, backend, p, touch=False):
     except ValueError:
         ctx.case(False, label="skipped:unprintable(C19)")
         return
+    if p["ctor"][0] == "str":
+        R0 = ref.split(p["ctor"][1])
+        if R0["authority"] is not None and ref.split_authority(R0["authority"])[2] is None and R0["authority"] != "":
+            # the constructor text itself carries an authority with an empty host ('//:', '//@'): not "syntactically valid host"
+            ctx.case(False, label="skipped:empty-host-authority")
+            return
     if u._netloc and not (u.raw_host or ""):
         # an authority with an empty host (e.g. produced by join() with an arbitrary '//...' reference): not "syntactically valid host"
         ctx.case(False, label="skipped:empty-host-authority")
